@@ -80,7 +80,7 @@ class QI(Q):
 
 
 def is_intlike(x):
-    return isinstance(x, (int, QI)) and not isinstance(x, float)
+    return (isinstance(x, (int, QI)) and not isinstance(x, float)) or type(x).__name__ == "SymI"
 
 
 _INT_CLOSED = {"__add__", "__radd__", "__sub__", "__rsub__", "__mul__", "__rmul__", "__neg__", "__pos__",
@@ -527,6 +527,37 @@ class Sym:
         return repr(self)
 
 
+class SymI(Sym):
+    """A symbolic *Python int* (an integer-valued symbolic scalar whose kind matters to numpy's dtype rules:
+    `int array * python int` stays integer, `np.result_type(int array, python int)` is integer).  Closed under
+    + - * unary minus, abs and non-negative integer powers with int-like operands; anything else gives a plain Sym."""
+    __slots__ = ()
+
+
+def _int_closed(name):
+    base = getattr(Sym, name)
+
+    def g(self, *o):
+        r = base(self, *o)
+        if o and not is_intlike(o[0]):
+            return r
+        if name == "__pow__":
+            c = concrete(o[0])
+            if c is None or c < 0:
+                return r
+        if type(r) is Sym:
+            return SymI(r.p)
+        if isinstance(r, Q) and not isinstance(r, QI) and r.denominator == 1:
+            return QI(r)
+        return r
+    g.__name__ = name
+    return g
+
+
+for _n in ("__add__", "__radd__", "__sub__", "__rsub__", "__mul__", "__rmul__", "__neg__", "__abs__", "__pow__"):
+    setattr(SymI, _n, _int_closed(_n))
+
+
 def simp(p: Poly):
     """Concrete results come back as Q so that Python-level uses (range, indices) keep working."""
     if p.is_const():
@@ -667,5 +698,5 @@ def s_ite(cond, a, b):
     return simp(T.mkITE(cn, lift(a).p, lift(b).p))
 
 
-def fresh(name, pos=False) -> Sym:
-    return Sym(T.var(name, pos))
+def fresh(name, pos=False, integer=False) -> Sym:
+    return (SymI if integer else Sym)(T.var(name, pos))
